@@ -154,6 +154,7 @@ func properties() map[string]*PropertySpec {
 		Functions: "(*Server).Run (accept loop, connID/localConnID), Run$1, newConn, (*Request).ConnectionID, OnClose callback",
 		Outside:   []string{"more than 3 connections / 2 requests each; more than 2^63 accepts", "the inductive step from an arbitrary counter value is replaced by 3 unrolled iterations under every spawn-order schedule (which is what separates the per-iteration copy from the loop variable)"},
 		Harnesses: []HarnessSpec{
+			nat("H_C09_step", "step", "inductive step: any connection id n in 1..2^63-1 and any request number k >= 1 (all 64-bit values)", ""),
 			eng("H_C09_ids", "ids", "1..2 connections x 1..2 requests, every child-first/spawner-first choice at each go statement", "quick"),
 			eng("H_C09_ids3", "ids", "1..3 connections x 1..2 requests; child-first/spawner-first explored for the connection goroutines only", ""),
 		}})
